@@ -35,7 +35,8 @@ FailC14(c) ==
 FailC15(c) ==
   LET mp == ParseAssertion(c.tokens)
       want == Desugar(DesugarU(c.phi)) IN
-  IF ~mp.ok THEN <<"model.parse", "parsable by Lang!ParseAssertion", "no parse">>
+  IF ~Derivable(c.tokens) THEN <<"model.derivable", "derivable by Lang!Derivable", "not derivable">>   \* recogniser vs parser model
+  ELSE IF ~mp.ok THEN <<"model.parse", "parsable by Lang!ParseAssertion", "no parse">>
   ELSE IF mp.ast # want THEN <<"model.ast", want, mp.ast>>          \* the spelling generator disagrees with the grammar model
   ELSE IF c.outcome = "RTAMT" THEN <<>>                              \* rejected spelling: counted, not a wrong grouping
   ELSE IF c.outcome # "ok" THEN <<"parse.outcome", "ok", c.outcome>>
